@@ -6,6 +6,7 @@ import (
 	"encoding/json"
 	"fmt"
 	"sort"
+	"sync"
 
 	"github.com/trustbloc/sidetree-go/pkg/api/operation"
 	"github.com/trustbloc/sidetree-go/pkg/api/protocol"
@@ -83,6 +84,45 @@ func (r *recObjValidator) Validate(obj interface{}) error {
 		return fmt.Errorf("origin validator refuses")
 	}
 	return nil
+}
+
+// Shared makes the handlers use one instance of every component per configuration for the whole
+// process (the C20 stress runs many goroutines against them); validators then do not record.
+var Shared bool
+
+var sharedObjects sync.Map
+
+func shared(key string, mk func() interface{}) interface{} {
+	if v, ok := sharedObjects.Load(key); ok {
+		return v
+	}
+	v, _ := sharedObjects.LoadOrStore(key, mk())
+	return v
+}
+
+type plainTimeValidator struct{ fail bool }
+
+func (v plainTimeValidator) Validate(_, _ int64) error {
+	if v.fail {
+		return fmt.Errorf("time validator refuses")
+	}
+	return nil
+}
+
+type plainObjValidator struct{ fail bool }
+
+func (v plainObjValidator) Validate(_ interface{}) error {
+	if v.fail {
+		return fmt.Errorf("origin validator refuses")
+	}
+	return nil
+}
+
+func newSharedStack(p protocol.Protocol, tvFail, ovFail bool) *stack {
+	s := &stack{p: p, tv: &recTimeValidator{}, ov: &recObjValidator{}}
+	s.parser = operationparser.New(p, operationparser.WithAnchorTimeValidator(plainTimeValidator{tvFail}), operationparser.WithAnchorOriginValidator(plainObjValidator{ovFail}))
+	s.applier = operationapplier.New(p, s.parser, doccomposer.New())
+	return s
 }
 
 type stack struct {
